@@ -68,8 +68,10 @@ def parent_xml(p):
   <datamodel><data id="fin" expr="0"/><data id="k" expr="0"/><data id="visits" expr="0"/><data id="bounced" expr="0"/></datamodel>
   <%(s0kind)s id="s0">
     <onentry><assign location="visits" expr="visits + 1"/><assign location="k" expr="0"/>%(flash)s%(leave)s<if cond="bounced == 0">%(bounce)s</if><send event="tick" delay="%(T)dms"/></onentry>
+    %(exitsend)s
     %(inv)s
     <transition event="flash" target="s1"/>
+    <transition event="error.communication"><log label="ERRCOMM" expr="'in-s0'"/></transition>
     <transition cond="fin == 4242"><log label="EAF" expr="fin"/><assign location="fin" expr="0"/></transition>
     <transition event="bounce" target="s0"><assign location="bounced" expr="1"/></transition>
     <transition event="c" cond="fin == _event.data.n"><log label="pc" expr="_event.invokeid .. ' ' .. _event.data.n"/></transition>
@@ -82,12 +84,15 @@ def parent_xml(p):
   <final id="pfin"/>
   <state id="s1">
     <onentry><log label="in-s1" expr="visits"/>%(again)s</onentry>
+    <transition event="error.communication"><log label="ERRCOMM" expr="'in-s1'"/></transition>
     <transition event="c"><log label="pc" expr="_event.invokeid .. ' ' .. _event.data.n"/></transition>
     <transition event="done.invoke"><log label="pd" expr="_event.name"/></transition>
     <transition event="again" target="s0"/>
   </state>
 </scxml>''' % {'inv': inv, 'leave': leave, 'flash': flash, 'again': again, 'ondone': ondone, 'T': p['T'], 'NP': p['NP'], 'to': p.get('to', kids[0]), 'bounce': bounce,
-       's0kind': 'parallel' if p.get('par') else 'state', 'leaveto': 'pfin' if p.get('final_on_leave') else 's1'}
+       's0kind': 'parallel' if p.get('par') else 'state', 'leaveto': 'pfin' if p.get('final_on_leave') else 's1',
+       # the exit handler of the invoking state talks to its own invocation: that runs before the invocation is cancelled (App. D exitStates)
+       'exitsend': ('<onexit><send target="#_%s" event="farewell"/></onexit>' % kids[0]) if p.get('exitsend') else ''}
 
 
 def gen_params(rng):
@@ -104,6 +109,7 @@ def gen_params(rng):
     p['Db'] = rng.choice([None, None, 1, 10, 30])             # the invoking state is left and re-entered by one transition after Db ms
     p['final_on_leave'] = p['Dp'] is not None and rng.random() < 0.3   # leaving the invoking state ends the parent (top-level final)
     p['broken'] = rng.choice([None, None, None, 'first', 'last'])
+    p['exitsend'] = (not p['par']) and rng.random() < 0.4
     return p
 
 
@@ -136,11 +142,13 @@ def analyse(recs, p):
     # --- invocations: per id list of dicts(ib, ia, ub, ua) from the parent's records
     invs = collections.defaultdict(list)
     active = False; invoked = {c: False for c in kids}; ended = False; pending_cancel = set(); expect_eaf = None
+    exits_without_invocation = 0
     for r in par:
         k, a = r[3], r[4].split(' ')
         if k == 'NB' and a[0] == psid and a[1] == 's0': active = True
         elif k == 'XB' and a[0] == psid and a[1] == 's0':
             active = False
+            if not invoked.get(kids[0]): exits_without_invocation += 1      # left before the invocation was started (same macrostep): nobody to talk to
             pending_cancel |= set(c for c in kids if invoked[c])     # exiting the state must cancel what runs, also when the state is re-entered at once
         elif k == 'E' and a[0] == psid:
             if expect_eaf is not None: bad.append(('eventless-transition-not-re-examined-after-finalize', {'event_seq': expect_eaf})); expect_eaf = None
@@ -280,6 +288,11 @@ def analyse(recs, p):
             if not all(x in it for x in cfs): bad.append(('autoforwarded-events-out-of-order-or-not-from-window', {'id': c, 'child': cfs[:40], 'parent_window': win[:40]}))
             if complete() and not iv['finished'] and not iv['cancelled'] and len(cfs) < len(win):
                 bad.append(('autoforwarded-event-lost', {'id': c, 'child': len(cfs), 'parent_window': len(win)}))
+    if p.get('exitsend'):
+        # the exit handler of the invoking state sends to its own invocation: that must work whenever the invocation had been started
+        errc = [r[4] for r in recs if r[3] == 'L' and r[4].startswith('ERRCOMM')]
+        if len(errc) > exits_without_invocation:
+            bad.append(('send-from-exit-handler-to-own-invocation-failed', {'error.communication': len(errc), 'exits_before_the_invocation_was_started': exits_without_invocation}))
     return bad, stats
 
 
